@@ -3,7 +3,7 @@ import itertools
 import re
 
 SLICE = "NAMENEW (Name::new, Display, re-creation, new_unchecked), SUFFIX (is_subdomain_of, without, is_link_local)"
-RULE = ("bounded-exhaustive: every string of length <= 5 (6 in thorough) over {a, A, 1, -, _, ., \\, e-acute}; label lengths 0..70 "
+RULE = ("bounded-exhaustive: every string of length <= 5 (6 in thorough) over {a, A, 1, -, _, ., \\, e-acute}; label lengths 0..70 with every kind of first and last character "
         "and names with wire length 250..260; all pairs of names with <= 4 labels over a 2-letter alphabet (plus 'local' in several "
         "letter cases) for the suffix relations. Oracle: an independent python grammar / list-suffix reference. "
         "non-trivial = name accepted or relation true")
@@ -20,6 +20,13 @@ def cases(rng, tier):
     for ll in range(0, 71):
         out.append("NAMENEW " + ((b"x" * ll + b".local").hex()))
         out.append("NAMENEW " + ((b"a." + b"y" * ll).hex()))
+        # every length with every kind of first and last character (the length limit and the grammar are checked together)
+        if ll >= 2:
+            for first in (b"a", b"1", b"_", b"-", b"A"):
+                for last in (b"a", b"1", b"_", b"-"):
+                    out.append("NAMENEW " + (first + b"m" * (ll - 2) + last + b".local").hex())
+                    if ll in (62, 63, 64, 65):
+                        out.append("NAMENEW " + (b"x." + first + b"-" * (ll - 2) + last).hex())
     for total in range(248, 262):
         # name of `total` wire bytes: labels of 63 then a remainder
         labels, left = [], total - 1
